@@ -183,10 +183,19 @@ class H(explore.Harness):
             self.browsers = {}
             self.zc_incomplete = {}
             self.started = {}
+            shared = None
             for via, c in self.ctrls.items():
                 if hasattr(c, "_resolve_later"):
                     c._async_zeroconf_instance = _AZC()
-                    self.browsers[via] = _Browser(c.hap_type)
+                    if p.get("shared_browser"):
+                        # ONE browser for both HAP types (what applications set up): every handler hears about every service type
+                        if shared is None:
+                            shared = _Browser(c.hap_type)
+                        else:
+                            shared.types.append(c.hap_type)
+                        self.browsers[via] = shared
+                    else:
+                        self.browsers[via] = _Browser(c.hap_type)
             self._orig_find = self._zmod.find_brower_for_hap_type
             self._zmod.find_brower_for_hap_type = lambda azc, hap: next(b for b in self.browsers.values() if hap in b.types)
             self._orig_isb = None
@@ -200,7 +209,7 @@ class H(explore.Harness):
                     self.browsers[via].service_state_changed.register_handler(self.ctrls[via]._handle_service)
                     self.started[via] = "done"
         if self.mode != "none":
-            conn = {"ip": "IP", "coap": "CoAP", "ble": "BLE"}[self.kind]
+            conn = {"ip": "IP", "coap": "CoAP", "ble": "BLE"}[p.get("pairing_via", self.kind)]
             self.target.load_pairing("alias", pairing_data(IDS[0], conn))
         self.loop.run_until_idle()
 
@@ -704,6 +713,12 @@ def run(ctx):
         dict(kind="agg", pairing="none", waiters=2 if not quick else 1, ids=1, P=1 if not quick else 0),
         dict(kind="ipcoap", pairing="none", waiters=1, ids=1, P=0),
         dict(kind="coapip", pairing="none", waiters=1, ids=1, P=0),
+        # both zeroconf controllers behind ONE browser that reports both service types to every handler
+        dict(kind="ipcoap", pairing="none", waiters=1, ids=1, P=0, browser=True, shared_browser=True, timeouts=(5.0,)),
+        dict(kind="coapip", pairing="none", waiters=1, ids=1, P=0, browser=True, shared_browser=True, timeouts=(1.0,)),
+        # the aggregate controller with a pairing for the id loaded on ONE of its transports: an advertisement on the other one still counts
+        dict(kind="agg", pairing="nocache", pairing_via="ip", waiters=1, ids=1, P=0),
+        dict(kind="agg", pairing="nocache", pairing_via="ble", waiters=1, ids=1, P=0),
     ]
     configs += [
         # re-advertisements that differ only in flags / category; what the controller reports must follow
